@@ -17,13 +17,13 @@ import z3
 import oqupy
 import oqupy.process_tensor as ptm
 from oqupy.base_api import BaseAPIClass
-from oqupy.tempo import Tempo, MeanFieldTempo, GibbsTempo, TempoParameters, GibbsParameters
+from oqupy.tempo import Tempo, MeanFieldTempo, GibbsTempo, GibbsParameters
 from oqupy.pt_tempo import PtTempo
 from oqupy.backends.tempo_backend import TempoBackend, MeanFieldTempoBackend, TIBaseBackend
 from oqupy.backends.pt_tempo_backend import PtTempoBackend
 
 from . import sym, env, lib
-from .sym import S, SI, SB
+from .sym import S, SI
 
 EPS_REAL = lib.EPS_REAL
 
